@@ -222,8 +222,31 @@ def xss_inputs(tier, salt):
     return list(vgen.dedup(items))
 
 
-def xss_trace_validate(sc, d, rep, vh, inputs, name="TraceXss"):
+def screen(sc, vh, rep, inputs, api):
+    """Inputs on which the real call crashes the process or does not return are reported (every property presupposes
+    a call that returns) and set aside, so that the recorders below never hang or die on them."""
     inputs = list(inputs)
+    res = vlib.harness_map(sc, vh, api + "-api", [{"in": x} for x in inputs])
+    keep = []
+    bad = 0
+    for x, r in zip(inputs, res):
+        if r is not None and str(r.get("crash", "")).startswith("not run"):
+            bad += 1                  # (the chunk was abandoned after many crash / hang inputs: not recorded, not reported)
+        elif r is None or "crash" in r or "hang" in r:
+            bad += 1
+            if bad <= 20:
+                rep.violation("%s(%r) %s" % ("IsSQLi" if api == "sqli" else "IsXSS", show(x[:200]),
+                                             "does not return" if (r and "hang" in r) else "crashes the process: %s" % str((r or {}).get("crash"))[-300:]),
+                              {"kind": api + ".total", "a": x})
+        else:
+            keep.append(x)
+    if bad:
+        rep.part("screen." + api, inputs=len(inputs), crash_or_hang=bad)
+    return keep
+
+
+def xss_trace_validate(sc, d, rep, vh, inputs, name="TraceXss"):
+    inputs = screen(sc, vh, rep, inputs, "xss")
     vgen.rng("shuffle").shuffle(inputs)          # long inputs spread over the shards
     inp = sc.path(name + "-inputs.ndjson")
     write_ndjson(inp, [{"in": x} for x in inputs])
@@ -670,7 +693,7 @@ def c17(tier, sc):
                 {"kind": "xss.c17", "a": c["in"], "expect": c["tok"], "resume": c["resume"], "reduced": c["reduced"], "idx": c["idx"]})
     rep.part("constructs.real", cases=len(cases), checked=n1)
     # (2) range / order / count clauses on real token traces (monitor, no algorithm)
-    inputs = xss_inputs(tier, "c17")
+    inputs = screen(sc, vh, rep, xss_inputs(tier, "c17"), "xss")
     inp = sc.path("c17-inputs.ndjson")
     write_ndjson(inp, [{"in": x} for x in inputs])
     tr = sc.path("c17-trace.ndjson")
@@ -784,6 +807,8 @@ def c02(tier, sc):
     allin = list(vgen.dedup(inputs + extra))
     res = api_all(sc, vh, allin)
     for x, r in zip(allin, res):
+        if r is not None and str(r.get("crash", "")).startswith("not run"):
+            continue
         if r is None or "crash" in r:
             rep.violation("IsXSS crashed the process on %r: %s" % (show(x), (r or {}).get("crash", "")[-300:]), {"kind": "xss.total", "a": x, "how": "crash"})
         elif "hang" in r:
@@ -1145,7 +1170,7 @@ def sqli_inputs(tier, salt):
 
 
 def sqli_trace_validate(sc, d, rep, vh, inputs, name="TraceSqli"):
-    inputs = list(inputs)
+    inputs = screen(sc, vh, rep, inputs, "sqli")
     vgen.rng("shuffle").shuffle(inputs)          # long inputs spread over the shards
     inp = sc.path(name + "-inputs.ndjson")
     write_ndjson(inp, [{"in": x} for x in inputs])
@@ -1302,7 +1327,7 @@ def c16(tier, sc):
     d = stage_specs(sc, "c16", [tfile])
     # model: LexInv holds in every state of the lexer over all short inputs, all six modes
     beh = sqli_export(sc, d, rep, tier, only={"lex"})
-    inputs = list(vgen.dedup([b["in"] for b in beh] + sqli_inputs(tier, "c16")))
+    inputs = screen(sc, vh, rep, vgen.dedup([b["in"] for b in beh] + sqli_inputs(tier, "c16")), "sqli")
     inp = sc.path("c16-in.ndjson")
     write_ndjson(inp, [{"in": x} for x in inputs])
     tr = sc.path("c16-trace.ndjson")
@@ -1334,7 +1359,9 @@ def c16(tier, sc):
     return rep.finish()
 
 
-def api_records(sc, vh, inputs, tag):
+def api_records(sc, vh, inputs, tag, rep=None):
+    if rep is not None:
+        inputs = screen(sc, vh, rep, inputs, "sqli")
     inp = sc.path("apirec-%s-in.ndjson" % tag)
     write_ndjson(inp, [{"in": x, "tag": tag} for x in inputs])
     out = sc.path("apirec-%s.ndjson" % tag)
@@ -1360,7 +1387,7 @@ def c08(tier, sc):
     tfile, _ = gen_tables(sc, vh)
     d = stage_specs(sc, "c08", [tfile])
     inputs = c08_c12_inputs(sc, d, rep, tier)          # model: FpShape / ResultConsistent invariants
-    rec = api_records(sc, vh, inputs, "C08")
+    rec = api_records(sc, vh, inputs, "C08", rep)
     ev, ntr, rejects = mon_sqli(sc, d, rep, rec, "MonSqli.C08")
     npos = sum(1 for l in open(rec) if '"sqli":true' in l)
     for rj in rejects:
@@ -1423,7 +1450,7 @@ def c12(tier, sc):
     d = stage_specs(sc, "c12", [tfile])
     big = tier == "thorough"
     inputs = c08_c12_inputs(sc, d, rep, tier)          # model: CascadeOrder / ResultConsistent invariants
-    rec = api_records(sc, vh, inputs, "C12")
+    rec = api_records(sc, vh, inputs, "C12", rep)
     ev, ntr, rejects = mon_sqli(sc, d, rep, rec, "MonSqli.C12")
     for rj in rejects:
         rep.violation("cascade of IsSQLi(%r) breaks the clause %r: %s" % (show(rj["in"]), rj["reject"], json.dumps(rj["impl"])[:400]),
@@ -1746,6 +1773,8 @@ def c01(tier, sc):
     allin = list(vgen.dedup(inputs + extra))
     res = sqli_api(sc, vh, allin)
     for x, r in zip(allin, res):
+        if r is not None and str(r.get("crash", "")).startswith("not run"):
+            continue
         if r is None or "crash" in r:
             rep.violation("IsSQLi crashed the process on %r: %s" % (show(x), (r or {}).get("crash", "")[-300:]), {"kind": "sqli.total", "a": x, "how": "crash"})
         elif "hang" in r:
